@@ -136,7 +136,24 @@ func (w *world) closer(r *message.Router, wg *sync.WaitGroup) {
 	w.mu.Unlock()
 }
 
+// slowLogger is a LoggerAdapter whose Error takes a little while (as a real log sink may): it widens the window between a
+// handler panic and the router's Nack.
+type slowLogger struct{}
+
+func (slowLogger) Error(msg string, err error, fields watermill.LogFields) {
+	vlib.TimerWait(2 * time.Millisecond)
+}
+func (slowLogger) Info(msg string, fields watermill.LogFields)               {}
+func (slowLogger) Debug(msg string, fields watermill.LogFields)              {}
+func (slowLogger) Trace(msg string, fields watermill.LogFields)              {}
+func (l slowLogger) With(fields watermill.LogFields) watermill.LoggerAdapter { return l }
+
 func (w *world) handler(gate <-chan struct{}, work func()) message.HandlerFunc {
+	return w.handlerP(gate, work, false)
+}
+
+// handlerP: with panics=true the handler function panics (after the gate) instead of returning.
+func (w *world) handlerP(gate <-chan struct{}, work func(), panics bool) message.HandlerFunc {
 	return func(msg *message.Message) ([]*message.Message, error) {
 		t := w.get(msg.UUID)
 		if t == nil {
@@ -152,6 +169,9 @@ func (w *world) handler(gate <-chan struct{}, work func()) message.HandlerFunc {
 			work()
 		}
 		t.exited.Store(vlib.Now())
+		if panics {
+			panic("c06: scripted handler panic")
+		}
 		return []*message.Message{message.NewMessage(msg.UUID+"/out", nil)}, nil
 	}
 }
@@ -179,7 +199,15 @@ func forced(e *vlib.Env) vlib.Result {
 	}
 
 	w := &world{msgs: map[string]*tracked{}}
-	r, err := message.NewRouter(message.RouterConfig{CloseTimeout: timeout}, watermill.NopLogger{})
+	// in a third of the cells the handler function panics when it is let go, and the router logs to a slow sink
+	panics := (e.Idx/7)%3 == 1 && point != "router.handle.before_publish" && point != "router.handle.before_settle"
+	var logger watermill.LoggerAdapter = watermill.NopLogger{}
+	if panics {
+		logger = slowLogger{}
+		spec += " handlerPanics=true(slow log sink)"
+		res.Spec = spec
+	}
+	r, err := message.NewRouter(message.RouterConfig{CloseTimeout: timeout}, logger)
 	if err != nil {
 		res.Verdict = vlib.HarnessError
 		res.Reason = err.Error()
@@ -207,7 +235,7 @@ func forced(e *vlib.Env) vlib.Result {
 		sub = ps
 	}
 	pub := &vlib.Pub{Name: id}
-	r.AddHandler(hname, topic, sub, id+"/out", pub, w.handler(gate, nil))
+	r.AddHandler(hname, topic, sub, id+"/out", pub, w.handlerP(gate, nil, panics))
 	// a second, idle handler with its own ends: its subscriber and publisher must be closed too
 	idleSub, idlePub := &vlib.Sub{Name: id + "-idle"}, &vlib.Pub{Name: id + "-idle"}
 	r.AddHandler(id+"/idle", id+"/idle-in", idleSub, id+"/idle-out", idlePub, w.handler(nil, nil))
